@@ -40,7 +40,9 @@ JudgeRt(e) ==
       tr == TrailerInv(s1)
       tool == If(c \in CodecNames /\ e.level \in Levels(c), "TOOL:codec-or-level-outside-the-model")
               \cup If(~e.full \/ (Len(e.input) = e.in_len /\ (e.c_ok => Len(e.comp) = e.comp_len)), "TOOL:recorded-lengths")
-              \cup If(c # "snappy" \/ e.full, "TOOL:snappy-event-without-bytes")
+              \* there is no snappy reference: up to 120 000 bytes the bytes must be there for the TLA+ decoder
+              \* (beyond, only the round trip is decided: the sequence-rebuilding decoder is quadratic in TLC)
+              \cup If(c # "snappy" \/ e.full \/ e.in_len > 120000, "TOOL:snappy-event-without-bytes")
               \cup If(~e.c_ok \/ (e.ref_avail <=> c \in ReferenceCodecs), "TOOL:reference-reading-missing")
       fail == If(e.c_ok, "C15:compress-failed") \cup If(~(e.c_panic \/ e.d_panic), "C15:panic")
               \cup (IF ~e.c_ok THEN {} ELSE
@@ -137,12 +139,20 @@ JudgeFile(e) ==
                \cup If(~one \/ e.count = Len(e.values), "block-count")
   IN [fail |-> tool \cup fail, drift |-> drift]
 
+(* ---- ffile: a container file laid out by a foreign writer with a reference codec -> Reader ---- *)
+JudgeFfile(e) ==
+  [fail |-> If(~e.r_panic, "C15:panic")
+            \cup If(e.r_ok /\ e.r_values = e.values, IF e.r_ok THEN "C15:reference-made-file-read-differently"
+                                                               ELSE "C15:reference-made-file-rejected"),
+   drift |-> {}]
+
 Judge(e) ==
   CASE e.ev = "rt" -> JudgeRt(e)
     [] e.ev = "foreign" -> JudgeForeign(e)
     [] e.ev = "corrupt" -> JudgeCorrupt(e)
     [] e.ev = "hostile" -> JudgeHostile(e)
     [] e.ev = "file" -> JudgeFile(e)
+    [] e.ev = "ffile" -> JudgeFfile(e)
     [] OTHER -> [fail |-> {"TOOL:unknown-event"}, drift |-> {}]
 
 (* known deviations of the unchanged tree (ids from known_findings.json); none recorded for C15 *)
